@@ -193,6 +193,13 @@ T_C11_CanGet == e.cg \in {0, 1} =>
    ((e.cg = 1) <=> (Len(e.ready) > Cardinality(GrantedSet("get")) /\ PendingSet("get") = {}))
 T_C11_DelayOnce == (e.k = "c" /\ e.op = "put" /\ e.res = "ok" /\ e.dr >= 0) => e.dr = 1
 
+(* C12 on the slotted conveyor under ARBITRARY call sequences (the belt engine judges scripted producer / consumer   *)
+(* runs): never offered before the full travel time Cap * slot after entry, and offered in the order of entry        *)
+T_C12_MinTravelS == Cfg(tid).kind = "slotted" =>
+   \A i \in 1..Len(L.ins) : L.ins[i].av >= 0 => L.ins[i].av >= L.ins[i].at + Cap * Cfg(tid).slot
+T_C12_OrderS == Cfg(tid).kind = "slotted" =>
+   \A i, j \in 1..Len(L.ins) : (i < j /\ L.ins[j].av >= 0) => (L.ins[i].av >= 0 /\ L.ins[i].av <= L.ins[j].av)
+
 (* C14  fleet: availability = first activation at or after loading + round trip *)
 Acts == L.acts
 FirstAct(at) == IF \E i \in 1..Len(Acts) : Acts[i] >= at
